@@ -112,6 +112,16 @@ def cases(tier, seed):
         "pub const K: i32 = 5;\npub struct S\n{\n\ta: i32,\n}\nfn helper(s: S) -> i32\n{\n\treturn: s.a + K\n}\n",
         "fn div(a: i32, b: i32) -> i32\n{\n\treturn: a / b\n}\nfn main() -> i32\n{\n\tvar z: i32 = 0;\n\treturn: div(1, z)\n}\n",
     ]
+    # exported C-ABI functions with a body, alone and imported by another module; structure literals written out of
+    # declaration order / as constants
+    lib = "pub extern fn square(x: i32) -> i32\n{\n\treturn: x * x\n}\n\npub extern fn cube(x: i32) -> i32\n{\n\treturn: x * square(x)\n}\n"
+    app = "import \"lib.pn\";\n\nfn main() -> i32\n{\n\treturn: square(4) + cube(2)\n}\n"
+    cfg = ("struct Config\n{\n\tsize: i64,\n\tlevel: i8,\n\tfast: bool,\n}\n\nconst DEFAULT: Config = Config { level: 7, fast: true, size: 20 };\n\n"
+           "fn main() -> i32\n{\n\tvar c = Config { fast: false, size: 1000, level: 3 };\n\tvar d = Config { level: 9 };\n\treturn: c.level as i32 + DEFAULT.level as i32\n}\n")
+    for fs in ([("lib.pn", lib)], [("app.pn", app), ("lib.pn", lib)], [("lib.pn", lib), ("app.pn", app)], [("cfg.pn", cfg)],
+               [("m.pn", "extern fn main() -> i32\n{\n\treturn: 3\n}\n")]):
+        yield {"kind": "special_export", "files": fs}
+        yield {"kind": "special_export_wasm", "files": fs, "wasm": True}
     for s in specials:
         yield {"kind": "special", "files": [("special.pn", s)]}
         yield {"kind": "special_wasm", "files": [("special.pn", s)], "wasm": True}
